@@ -1914,3 +1914,30 @@ Proof.
     split; [lia|]. split; [replace (pre b r - 1) with (pre b (r - 1) + slen l1 - 1) by lia; exact T2|].
     split; [exact Hbl|]. exists (pre b r + slen l - 1). split; [lia|exact S2].
 Qed.
+
+(* count 1 is one scan *)
+Lemma chain_one step i j : chain step 1 i j <-> exists s, step i j s.
+Proof.
+  split.
+  - intro C. inversion C; subst; [eexists; eassumption|]. match goal with H : chain _ 0 _ _ |- _ => inversion H; subst end. eexists; eassumption.
+  - intros ([] & S); [apply chain_end, S|eapply chain_more; [exact S|constructor]].
+Qed.
+
+(* display order = offset order on the column model of a left-to-right line *)
+Lemma columns_increasing l i j : 0 <= i < j -> j < slen l -> ren_pos l i < ren_pos l j.
+Proof.
+  intros Hij Hj. destruct (positions_incr l) as [Hi _]. unfold ren_pos.
+  destruct (Z.leb_spec 0 i); [|lia]. destruct (Z.ltb_spec i (slen l)); [|lia].
+  destruct (Z.leb_spec 0 j); [|lia]. destruct (Z.ltb_spec j (slen l)); [|lia]. cbn [andb].
+  apply Hi. rewrite positions_len. unfold slen in *. lia.
+Qed.
+
+(* N% : a line motion to row (len-1)*N/100, failing above 100 *)
+Lemma percent_line b rows top cl cc pc cnt row off :
+  vi_motion b rows top cl cc pc true cnt Kpct row off =
+  if 100 <? cnt then MvFail cl cc
+  else MvOk (Z.max 0 (Z.max 0 (blen b - 1) * cnt / 100)) (-1) cl cc pc.
+Proof.
+  unfold vi_motion. cbn [vi_motionln]. destruct (100 <? cnt); [reflexivity|]. cbv zeta.
+  destruct (Z.ltb_spec (Z.max 0 (blen b - 1) * cnt / 100) 0); f_equal; lia.
+Qed.
